@@ -279,12 +279,16 @@ def rule_token_end_writers(rep, crate, cfg):
 # value descriptions
 # --------------------------------------------------------------------------------------------
 
-def desc(fn, op):
-    """Canonical description of an operand: 'self.f' / 'param<n>' / 'const:<v>' / 'call:<callee>(args...)' / '?'"""
+def desc(fn, op, ident=False):
+    """Canonical description of an operand: 'self.f' / 'param<n>' / 'const:<v>' / 'call:<callee>(args...)' / '?'.
+    With ident=True every call is tagged with its block (`call@12:...`) so that two calls of the same function differ."""
     r = trace(fn, op)
     k = r[0]
+    at = (lambda b: '@%d' % b) if ident else (lambda b: '')
     if k == 'const':
         v = const_int(r[1])
+        if v is None and r[1].get('fn'):
+            return 'fn:%s' % r[1]['fn']
         return 'const:%s' % (v if v is not None else r[1].get('val'))
     if k == 'param':
         return 'param%d' % r[1]
@@ -293,28 +297,32 @@ def desc(fn, op):
         if tp:
             root, fl = tp
             if root[0] == 'param':
-                return ('self' if root[1] == 1 else 'param%d' % root[1]) + ''.join('.' + f for f in fl)
+                return ('self' if root[1] == 1 and fn.names.get(1) == 'self' else 'param%d' % root[1]) + ''.join('.' + f for f in fl)
             if root[0] == 'call':
-                return 'call:%s' % root[1] + ''.join('.' + f for f in fl)
-            return 'local' + ''.join('.' + f for f in fl)
+                return 'call%s:%s' % (at(root[2]), short(root[1])) + ''.join('.' + f for f in fl)
+            return 'local%s' % (('#%d' % root[1]) if ident else '') + ''.join('.' + f for f in fl)
         return '?place'
     if k == 'call':
         t = r[2]
-        return 'call:%s(%s)' % (short(fn.callee_name(t)), ','.join(desc(fn, a) for a in t['args']))
+        return 'call%s:%s(%s)' % (at(r[1]), short(fn.callee_name(t)), ','.join(desc(fn, a, ident) for a in t['args']))
     if k == 'agg':
         rhs = r[2]['rhs']
         kd = rhs['kind']
         nm = kd.get('adt') or ('closure:' + kd.get('closure', '')) if ('adt' in kd or 'closure' in kd) else 'tuple'
         names = rhs['fields'] or [str(i) for i in range(len(rhs['ops']))]
-        return 'agg:%s{%s}' % (nm, ','.join('%s=%s' % (n, desc(fn, o)) for n, o in zip(names, rhs['ops'])))
+        if 'adt' in kd and kd.get('variant') and kd['variant'] != kd['adt'].split('::')[-1]:
+            nm += '::' + kd['variant']
+        return 'agg:%s{%s}' % (nm, ','.join('%s=%s' % (n, desc(fn, o, ident)) for n, o in zip(names, rhs['ops'])))
     if k == 'bin':
         rhs = r[2]['rhs']
-        return '%s(%s,%s)' % (rhs['bop'], desc(fn, rhs['a']), desc(fn, rhs['b']))
+        return '%s(%s,%s)' % (rhs['bop'], desc(fn, rhs['a'], ident), desc(fn, rhs['b'], ident))
     if k == 'un':
         rhs = r[2]['rhs']
-        return '%s(%s)' % (rhs['uop'], desc(fn, rhs['a']))
+        return '%s(%s)' % (rhs['uop'], desc(fn, rhs['a'], ident))
     if k == 'cast':
-        return 'cast(%s)' % desc(fn, r[2]['rhs']['a'])
+        return 'cast(%s)' % desc(fn, r[2]['rhs']['a'], ident)
+    if k == 'multi':
+        return '?multi' + (('#%d' % r[1]) if ident else '')
     return '?' + k
 
 
@@ -546,7 +554,7 @@ def rule_spanned(rep, crate, cfg):
             else:
                 cd = ret_desc(clo)
                 rep.inst(rid, cfg + ':SpannedIter::next::closure', detail=cd)
-                if cd != 'agg:tuple{0=param2,1=call:lexer::Lexer::span(self.0)}':
+                if cd != 'agg:tuple{0=param2,1=call:lexer::Lexer::span(param1.0)}':
                     rep.viol(rid, 'SpannedIter::next:pair', 'the closure of SpannedIter::next returns %s, expected (token, lexer.span())' % cd, loc(clo))
     fn = crate.one(r'^<lexer::SpannedIter<.*> as std::clone::Clone>::clone$')
     if rep.anchor(rid, 'fn SpannedIter::clone [%s]' % cfg, fn is not None):
@@ -719,7 +727,7 @@ def rule_read_bounds(rep, crate, cfg):
             if r and r[0] == 'bin':
                 rhs = r[2]['rhs']
                 da, db = desc(clo, rhs['a']), desc(clo, rhs['b'])
-                is_len = lambda d: re.fullmatch(r'call:(core::str::<impl str>::len|core::slice::<impl \[T\]>::len|source::Source::len)\(self\.0\)', d) is not None or d == 'PtrMetadata(self.0)'
+                is_len = lambda d: re.fullmatch(r'call:(core::str::<impl str>::len|core::slice::<impl \[T\]>::len|source::Source::len)\(param1\.0\)', d) is not None or d == 'PtrMetadata(param1.0)'
                 if rhs['bop'] == 'Le' and da == 'param2' and is_len(db):
                     okc = True
                 if rhs['bop'] == 'Ge' and db == 'param2' and is_len(da):
